@@ -18,7 +18,7 @@ from harness import common, par, refwarc
 
 FI_DIR = os.path.join(common.VERIF, 'harness', 'fi')
 FI_SO = os.path.join(FI_DIR, 'fi.so')
-MODES = [('err', 28), ('err', 5), ('sticky', 28), ('kill_before', 0), ('kill_after', 0), ('kill_torn', 0)]
+MODES = [('err', 28), ('err', 5), ('sticky', 28), ('short', 28), ('kill_before', 0), ('kill_after', 0), ('kill_torn', 0)]
 
 
 def ensure_fi():
@@ -214,7 +214,7 @@ def case_worker(job):
                         opclass, second.get('kind'), 'journal' if str(second.get('file', '')).endswith('-wpullinc') else 'archive'),
                         detail, replay)
             return part.dump()
-        if mode in ('err', 'sticky'):
+        if mode in ('err', 'sticky', 'short'):
             if proc.returncode != 0 or result is None:
                 part.violation('process-died-on-io-error/' + opclass, dict(detail, rc=proc.returncode,
                                out=proc.stdout.decode('utf-8', 'replace')[-300:]), replay)
@@ -226,6 +226,11 @@ def case_worker(job):
                 if verdict is not True or journals:
                     part.violation('error-swallowed-but-archive-or-journal-bad/' + opclass,
                                    dict(detail, verdict=str(verdict)), replay)
+                elif opclass.endswith(':archive') and op['kind'] in ('write', 'writev', 'pwrite') and \
+                        cfg.get('scenario') in (None, 'plain') and not (len(archive) > len(snapshot) and
+                                                                         archive[:len(snapshot)] == snapshot):
+                    # the append was reported as done although a write of the archive failed: the record must be there
+                    part.violation('append-reported-done-but-record-missing/' + opclass, detail, replay)
                 return part.dump()
             part.count('append_raised')
             if not result.get('is_oserror'):
@@ -309,7 +314,7 @@ def main():
         return
     check = common.Check('C06', level='fault_enumeration')
     check.rule = ('all (compress, earlier records R, record size, scenario) configurations x every interposed file operation '
-                  'k of the monitored append x 6 fault/kill modes; distinct_nontrivial = distinct (compress, R, op kind:file '
+                  'k of the monitored append x 7 fault/kill modes (error once, sticky error, short write then errors, kills); distinct_nontrivial = distinct (compress, R, op kind:file '
                   'role at k, mode, scenario) with the case executed')
     check.trusted_base.append('harness/fi/fi.c LD_PRELOAD interposer (open/write/pwrite/writev/fsync/close/ftruncate/unlink/rename)')
     check.assumptions = ['file operations go through libc wrappers (true for CPython)',
